@@ -4,7 +4,9 @@ use std::fs;
 use std::path::Path;
 
 fn main() {
-    let src_path = "/repo/src/simd/neon.rs";
+    println!("cargo:rerun-if-env-changed=VERIF_REPO");
+    let src_path_s = format!("{}/src/simd/neon.rs", std::env::var("VERIF_REPO").unwrap_or_else(|_| "/repo".to_string()));
+    let src_path = src_path_s.as_str();
     println!("cargo:rerun-if-changed={}", src_path);
     println!("cargo:rerun-if-changed=build.rs");
     let out = std::env::var("OUT_DIR").unwrap();
